@@ -5,6 +5,7 @@ re-execution with decision prefixes (Explorer).
 """
 import re
 import sys
+import time
 import z3
 from .mirparse import MirFile, split_top, match_close, ParseError
 from .values import *
@@ -363,6 +364,9 @@ class Explorer:
             except Unsupported as u:
                 self.unsupported.append((str(u), getattr(u, 'where', '')))
                 self.path_results.append(('unsupported', str(u), list(interp.decisions)))
+                if 'time budget' in str(u):
+                    self.truncated = True
+                    work[:] = []
             except PathInfeasible:
                 self.path_results.append(('infeasible', None, list(interp.decisions)))
             except PathEnd:
@@ -395,6 +399,7 @@ class Interp:
         self.functions_used = {}
         self.stubs_used = {}
         self.hooks = {}            # name -> python callable(interp, args) overriding MIR fns
+        self.deadline = None               # wall-clock limit checked at every symbolic branch
         self.keep_raw_conditions = False   # True: path conditions are stored unsimplified (for the LIA shadow)
         self.observers = {}        # last path segment -> callable(interp, full name, args): called before the MIR body runs
         self.step_limit = 5_000_000
@@ -422,6 +427,8 @@ class Interp:
             return True
         if z3.is_false(sc):
             return False
+        if self.deadline is not None and time.time() > self.deadline:
+            raise Unsupported('time budget for this analysis exhausted')
         if self.keep_raw_conditions is False:
             cond = sc
         k = len(self.decisions)
@@ -615,6 +622,8 @@ class Interp:
             base = self.place(p[1], frame)
             if type(base) is not tuple:
                 raise Unsupported('field of unsized place')
+            if not isinstance(base[1], int):
+                base = self.concrete_slot(base)
             agg = base[0][base[1]]
             if type(agg) is not Agg:
                 if agg is UNINIT or agg is MOVED:
@@ -656,6 +665,16 @@ class Interp:
             return Slice(arr.fields, a, b - a)
         raise Unsupported('place %r' % (p,))
 
+    def concrete_slot(self, pl):
+        """(cont, symbolic key) -> (cont, concrete key): in-bounds obligation + fork over positions"""
+        cont, key = pl
+        key = z3.simplify(key)
+        if z3.is_bv_value(key):
+            return (cont, key.as_long())
+        n = len(cont)
+        self.require(z3.ULT(key, z3.BitVecVal(n, key.size())), 'symbolic index out of bounds of object of %d elements' % n, 'oob')
+        return (cont, self.fork_index(key, 0, n))
+
     def index_place(self, base, i):
         if type(base) is Slice:
             st = base.start
@@ -690,7 +709,7 @@ class Interp:
         lo, hi = self.index_range(key, n)
         first = cont[lo]
         if type(first) is not Sc:
-            raise Unsupported('symbolic index into non-scalar buffer')
+            return cont[self.fork_index(key, lo, hi)]
         t = first.t
         if t == 'f64':
             res = self.smt.fp_lift(cont[hi - 1].v)
@@ -702,6 +721,15 @@ class Interp:
             for i in range(hi - 2, lo - 1, -1):
                 res = z3.If(key == i, self.bv(cont[i]), res)
         return Sc(t, res)
+
+    def fork_index(self, key, lo, hi):
+        """concretise a symbolic index into a container of aggregates by forking over the feasible positions"""
+        if hi - lo > 64:
+            raise Unsupported('symbolic index into a container of %d aggregates' % (hi - lo))
+        for i in range(lo, hi):
+            if self.branch(key == z3.BitVecVal(i, key.size())):
+                return i
+        raise PathInfeasible()
 
     def index_range(self, key, n):
         """cheap interval for a symbolic index (to keep ITE chains short): use registered hints"""
@@ -730,6 +758,9 @@ class Interp:
         n = len(cont)
         self.require(z3.ULT(key, z3.BitVecVal(n, key.size())), 'symbolic store index out of bounds of object of %d elements' % n, 'oob')
         lo, hi = self.index_range(key, n)
+        if type(val) is not Sc or (n and type(cont[lo]) is not Sc):
+            cont[self.fork_index(key, lo, hi)] = val
+            return
         for i in range(lo, hi):
             old = cont[i]
             if old.t == 'f64' or val.t == 'f64':
